@@ -10,7 +10,9 @@ Alpha == <<
   Recv_(0, 255, 0, 18, P220), Recv_(0, 255, 0, 18, P21), Recv_(0, 255, 0, 18, Pgarbage),
   Recv_(1, 255, 0, 17, P20),
   Recv_(1, 255, 3, 16, PEmpty), Recv_(1, 255, 3, 22, P1), Recv_(1, 255, 3, 32, PEmpty), Recv_(1, 255, 3, 14, PEmpty),
-  Recv_(1, 255, 4, 5, PEmpty), Recv_(1, 255, 4, 6, PEmpty)
+  Recv_(1, 255, 4, 5, PEmpty), Recv_(1, 255, 4, 6, PEmpty),
+  Cycle_
 >>
-Inits == << St(EmptyFn, NoVer, "1.4", TRUE) >>
+\* second initial state: the gateway's own node restored from persistence, version not yet reported
+Inits == << St(EmptyFn, NoVer, "1.4", TRUE), St((0 :> NodeC("2.2.0", FALSE, EmptyFn)), NoVer, "1.4", TRUE) >>
 =============================================================================
